@@ -268,12 +268,12 @@ def _streams(rng, tier, boost):
         depth = 3
     for c in small_scope(depth):
         out.append(('exhaustive', c))
-    n = (9000 if tier == 'quick' else 300000) * (boost if tier == 'quick' else 1)
+    n = (14000 if tier == 'quick' else 300000) * (boost if tier == 'quick' else 1)
     for _ in range(n):
         out.append(('structured', rand_case(rng)))
-    for _ in range((4000 if tier == 'quick' else 80000) * (boost if tier == 'quick' else 1)):
+    for _ in range((6000 if tier == 'quick' else 80000) * (boost if tier == 'quick' else 1)):
         out.append(('collision', collision_case(rng)))
-    for _ in range((3000 if tier == 'quick' else 60000) * (boost if tier == 'quick' else 1)):
+    for _ in range((4000 if tier == 'quick' else 60000) * (boost if tier == 'quick' else 1)):
         out.append(('malformed', malformed_case(rng)))
     return out
 
@@ -309,8 +309,15 @@ def enc_files(files):
     return out
 
 
-def run_impl(case):
+SOFT_LIMIT = 0.5     # seconds; a case normally takes 1-3 ms.  A time-out is re-checked by the judge before it counts (see _confirm_hang)
+
+
+def run_impl(case, limit=SOFT_LIMIT):
     from plasTeX.Filenames import Filenames
+    if limit:
+        import signal
+        # shorten the per-case alarm armed by the driver (same handler: the case is reported as ['hang'])
+        signal.setitimer(signal.ITIMER_REAL, limit)
     cs = case['charsub']
     f = Filenames(case['spec'], tuple(cs) if cs is not None else None, dict((k, v) for k, v in case['vars0']), case['ext'],
                   dict.fromkeys(case['invalid']))
@@ -614,7 +621,7 @@ def cut(results):
 _HANG_CONFIRMATIONS = [0]
 
 
-def _confirm_hang(case, seconds=20):
+def _confirm_hang(case, seconds=10):
     """a per-case time-out under load is not yet a loop: re-run the first few 'hang' cases here with a generous alarm"""
     import signal
 
@@ -626,7 +633,7 @@ def _confirm_hang(case, seconds=20):
     old = signal.signal(signal.SIGALRM, _h)
     signal.alarm(seconds)
     try:
-        return run_impl(case)
+        return run_impl(case, limit=None)
     except _T:
         return ['hang']
     except BaseException as e:  # noqa
@@ -642,8 +649,11 @@ def judge(case, io, mo):
     if io == mo:
         return None
     if isinstance(io, list) and io[:1] == ['hang'] and _HANG_CONFIRMATIONS[0] < 3:
-        _HANG_CONFIRMATIONS[0] += 1
+        # the soft limit is short; under load a slow case is not a loop.  Re-run it here with a generous alarm; once three
+        # cases have been confirmed to loop the remaining time-outs are taken at face value.
         io = _confirm_hang(case)
+        if io == ['hang']:
+            _HANG_CONFIRMATIONS[0] += 1
         if io == mo:
             return None
     ir = results_of(io)
